@@ -127,7 +127,7 @@ func c06Specs() map[string]*c06Spec {
 		{Name: "s", Cmds: []C{P()}},
 	}}, dedup: map[string]*c06Task{"s": {mode: "always", refs: 3}}}
 	// when_changed with the variable reaching different places of the callee
-	for _, flow := range []string{"cmd", "env", "subcall", "dynvar", "same", "same_silent"} {
+	for _, flow := range []string{"cmd", "env", "subcall", "dynvar", "defer", "same", "same_silent"} {
 		s := &T{Name: "s", Run: "when_changed"}
 		dt := &c06Task{mode: "when_changed", keys: []string{"1", "2"}, flow: flow}
 		tasks := []*T{}
@@ -141,6 +141,9 @@ func c06Specs() map[string]*c06Spec {
 			s.Cmds = []C{P(), {Call: &Ref{Task: "leaf", VP: "=", Vars: [][2]string{{"Y", "{{.X}}"}}}}}
 			tasks = append(tasks, &T{Name: "leaf", Cmds: []C{{Extra: "{{.Y}}"}}})
 			dt.keyTask, dt.keyEntry = "leaf", 0
+		case "defer":
+			// the variable only reaches a deferred command (rendered when it runs, not when the task is compiled)
+			s.Cmds = []C{{Defer: true, Extra: "{{.X}}"}, P()}
 		case "dynvar":
 			s.RawLines = []string{"vars:", "  Y: {sh: 'echo {{.X}}'}"}
 			s.Cmds = []C{{Extra: "{{.Y}}"}, P()}
